@@ -162,6 +162,11 @@ def entries() -> list[Entry]:
         Entry("JSONSerializer(lines)", lambda: JSONSerializer(), _json_value),
         Entry("JSONSerializer(lines,ensure_ascii=False)", lambda: JSONSerializer(encoder_config=JSONEncoderConfig(ensure_ascii=False), encoding="utf-8"), _json_value),
         Entry("JSONSerializer(raw)", lambda: JSONSerializer(use_lines=False), _json_value),
+        # small limits with packets that fit individually: a read (or a leftover plus a read) holding several of them is bigger than
+        # the limit - the limit is about ONE frame, not about what happens to be in the buffer
+        Entry("JSONSerializer(raw,limit=40)", lambda: JSONSerializer(use_lines=False, limit=40), lambda rng: [rng.randint(0, 999), _text(rng, 0, 8, string.ascii_letters)]),
+        Entry("JSONSerializer(lines,limit=40)", lambda: JSONSerializer(limit=40), lambda rng: [rng.randint(0, 999), _text(rng, 0, 8, string.ascii_letters)]),
+        Entry("StringLineSerializer(LF,limit=24)", lambda: StringLineSerializer("LF", limit=24), lambda rng: _text(rng, 0, 12, string.ascii_letters), buffered=True),
         Entry("JSONSerializer(raw,utf-8)", lambda: JSONSerializer(use_lines=False, encoder_config=JSONEncoderConfig(ensure_ascii=False), encoding="utf-8"), _json_value),
         # lines may contain (and end with) the characters of the *other* newline conventions: they are ordinary payload
         Entry("StringLineSerializer(LF)", lambda: StringLineSerializer("LF"), lambda rng: gen_line(rng) + rng.choice(["", "", "\r", "\r\r", "\rx"]), buffered=True),
